@@ -45,7 +45,8 @@ EXHAUSTIVE = {
 }
 REACH = {t: ["sub_rejected", "sub_timeout", "sub_ok", "unsub_rejected", "unsub_timeout", "unsub_ok",
              "full_table", "size_0", "already_subscribed", "startup_subscribed", "probe_free_count_checked",
-             "versions_3", "startup_several_endpoints", "startup_group_on_two_endpoints", "rejection_status_family_swept"] for t in ("quick", "thorough")}
+             "versions_3", "startup_several_endpoints", "startup_group_on_two_endpoints", "rejection_status_family_swept",
+             "overlapping_calls", "startup_again_on_same_object"] for t in ("quick", "thorough")}
 SHARD_TIMEOUT = {"quick": 900, "thorough": 3600}
 
 G = [0x1001, 0x1002, 0x1003]
@@ -166,6 +167,41 @@ def run_shard(desc) -> Acc:
                     acc.hit("startup_subscribed")
             wrote = []
             for (op, g, ans) in seq:
+                if op == "par":
+                    # two calls overlapping in time (asyncio.gather); judged by the probe phase below
+                    table.answers = []
+                    w0 = len(table.writes)
+                    res = await asyncio.gather(*[(mc.subscribe(g_) if o_ == "sub" else mc.unsubscribe(g_)) for (o_, g_) in g],
+                                               return_exceptions=True)
+                    ws = table.writes[w0:]
+                    wrote.append(bool(ws))
+                    hist.append(("par", [(o_, hex(g_)) for (o_, g_) in g], "ret", [repr(r_) for r_ in res], "writes", ws,
+                                 "table", [tuple(e) for e in table.entries]))
+                    for r_ in res:
+                        if isinstance(r_, BaseException):
+                            viol("C15/op/unexpected-exception", f"overlapping calls {g}: {r_!r}")
+                    acc.hit("overlapping_calls")
+                    if bad:
+                        break
+                    continue
+                if op == "restart":
+                    # the NCP lost / changed table entries behind the host's back (its table lives in
+                    # RAM: an NCP reset clears it), then start-up runs again on the same object
+                    if g == "cleared":
+                        table.entries = [[0, 0, 0] for _ in table.entries]
+                    elif g == "first_lost" and table.entries:
+                        table.entries[0] = [0, 0, 0]
+                    table.answers = []
+                    w0 = len(table.writes)
+                    try:
+                        await mc.startup(coord)
+                    except BaseException as ex:  # noqa: BLE001
+                        viol("C15/startup/raised", f"second start-up raised {ex!r}")
+                        break
+                    wrote.append(bool(table.writes[w0:]))
+                    hist.append(("restart", g, "writes", table.writes[w0:], "table", [tuple(e) for e in table.entries]))
+                    acc.hit("startup_again_on_same_object")
+                    continue
                 before = [list(e) for e in table.entries]
                 sub_before = g in table.subscribed()
                 free_before = len(table.free())
@@ -287,7 +323,7 @@ def run_shard(desc) -> Acc:
             for key, msg in bad[:2]:
                 acc.violation(key, msg, case, hist)
             acc.case()
-            eff = tuple((o, g, a if w else None) for (o, g, a), w in zip(seq, wrote))
+            eff = tuple((o, repr(g), a if w else None) for (o, g, a), w in zip(seq, wrote))
             if any(wrote):
                 acc.nontrivial((V, n, tuple(map(tuple, ents)), repr(case["startup_groups"]), eff))
             if n == 0:
@@ -325,6 +361,27 @@ def run_shard(desc) -> Acc:
                 await run(ents0, [], [("sub", G[0], "reject:#%d" % code), ("sub", G[2], "ok")])
                 await run(ents0, [], [("unsub", G[1], "reject:#%d" % code), ("sub", G[0], "ok")])
             acc.hit("rejection_status_family_swept")
+        if n in (2, 3) and desc["chunk"] == 0:
+            # overlapping calls, and start-up again on the same object after the NCP changed its table
+            some = [t_ for t_ in initial_tables(n)][desc["seed"] % 3:: max(1, len(initial_tables(n)) // (6 if desc["depth"] <= 3 and n == 3 else 10))]
+            for ents in some:
+                for (o1, g1) in OPS:
+                    for (o2, g2) in OPS:
+                        if g1 == g2:
+                            # overlapping calls for ONE group are outside the property (it speaks of
+                            # sequences of calls; only the index invariant is unconditional)
+                            continue
+                        await run(ents, [], [("par", [(o1, g1), (o2, g2)], "ok")])
+                        if (o1, o2) == ("sub", "sub"):
+                            await run(ents, [], [("par", [(o1, g1), (o2, g2)], "ok"), ("unsub", g1, "ok")])
+                            g3 = [g_ for g_ in G if g_ not in (g1, g2)][0]
+                            await run(ents, [], [("par", [(o1, g1), (o2, g2), ("sub", g3)], "ok")])
+                for how in (("cleared", "first_lost", "same") if n == 2 else ("cleared",)):
+                    for sg in ([], [[G[0]], [G[0], G[1]]]):
+                        await run(ents, sg, [("restart", how, "ok")])
+                        for (o1, g1) in OPS:
+                            await run(ents, sg, [(o1, g1, "ok"), ("restart", how, "ok")])
+                            await run(ents, sg, [(o1, g1, "ok"), ("restart", how, "ok"), (o1, g1, "ok")])
         for ents in tabs:
             await run(ents, [], [])
             await explore(ents, [], [])
